@@ -294,7 +294,8 @@ def buildSteps (c : Cfg) (platform : String) (archs : List String) : List Step :
     let dists := archs.map fun a => (c.platDir platform a).join ["dist"]
     let merged := c.mergedDir platform archs
     let dsyms := dists.map (·.join [dsymName c])
-    lipoCombine .always "framework" (dists.map (·.join [frameworkName c])) (merged.join [frameworkName c])
+    -- the framework copy takes `input[0]` unconditionally; the dSYM list was filtered to the existing ones first
+    lipoCombine .always "framework" ((dists.map (·.join [frameworkName c])).take 1) (merged.join [frameworkName c])
     ++ [always (.setFlagAnyDir ("dsym:" ++ platform) dsyms)]
     ++ lipoCombine (.flag ("dsym:" ++ platform)) "dSYM" dsyms (merged.join [dsymName c])
   else [])
